@@ -1103,7 +1103,7 @@ var tempoKinds = map[string]bool{"trace": true, "search": true, "searchql": true
 
 // ---------------------------------------------------------------------------------- list kinds
 
-var listKinds = map[string]bool{"tags": true, "tagvalues": true, "labels": true, "series": true}
+var listKinds = map[string]bool{"tags": true, "tagvalues": true, "labels": true, "series": true, "tagsv2": true, "valuesv2": true}
 
 func genStoredDoc(r *rand.Rand) (string, bool) {
 	m := genLabels(r)
@@ -1205,6 +1205,21 @@ func runList(c *Case) string {
 			ctl.Values(w, httptest.NewRequest("GET", "/api/search/tag/x/values", nil))
 		}
 		return w.body()
+	case "tagsv2", "valuesv2":
+		// without start= the V1 service call feeds the V2 handler, with start= the V2 call: same encoder
+		ctl := &controllerv1.TempoController{Service: &fakeTempo{items: items}}
+		w := newRec()
+		q := ""
+		if len(items)%2 == 1 {
+			q = "?start=1700000000&end=1700003600&limit=5000"
+		}
+		if c.Kind == "tagsv2" {
+			ctl.TagsV2(w, httptest.NewRequest("GET", "/api/v2/search/tags"+q, nil))
+		} else {
+			r := mux.SetURLVars(httptest.NewRequest("GET", "/api/v2/search/tag/x/values"+q, nil), map[string]string{"tag": "x"})
+			ctl.ValuesV2(w, r)
+		}
+		return w.body()
 	case "labels", "series":
 		reg := newRegistry(items)
 		defer dropRegistry(reg)
@@ -1264,6 +1279,33 @@ func goList(c *Case, body string) string {
 			return "diff:decode: " + err.Error()
 		}
 		got = v.TagNames
+	case "tagsv2", "valuesv2":
+		var v struct {
+			Scopes []struct {
+				Name string        `json:"name"`
+				Tags []interface{} `json:"tags"`
+			} `json:"scopes"`
+			TagValues []struct {
+				Type  string      `json:"type"`
+				Value interface{} `json:"value"`
+			} `json:"tagValues"`
+		}
+		if err := json.Unmarshal([]byte(body), &v); err != nil {
+			return "diff:decode: " + err.Error()
+		}
+		if c.Kind == "tagsv2" {
+			if len(v.Scopes) != 1 || v.Scopes[0].Name != "unscoped" {
+				return "diff:scopes"
+			}
+			got = v.Scopes[0].Tags
+		} else {
+			for _, tv := range v.TagValues {
+				if tv.Type != "string" {
+					return "diff:type"
+				}
+				got = append(got, tv.Value)
+			}
+		}
 	case "tagvalues":
 		var v struct {
 			TagValues []interface{} `json:"tagValues"`
@@ -1785,7 +1827,7 @@ func main() {
 	mix := []string{"streams", "matrix", "tags", "prommatrix", "vector", "labels", "streams", "tail", "series", "promvector",
 		"streams", "tagvalues", "matrix", "vector", "labels", "prommatrix", "tail", "series", "promscalar", "promerror",
 		"streams", "matrix", "tags", "prommatrix", "numfmt", "tagvalues", "streams", "tail", "promvector", "matrix",
-		"trace", "search", "searchql", "streams", "trace", "matrix", "vector", "labels", "series", "numfmt"}
+		"trace", "search", "searchql", "tagsv2", "trace", "matrix", "vector", "valuesv2", "series", "numfmt"}
 	cases := make([]Case, f.N)
 	var waits []func()
 	for i := 0; i < f.N; i++ {
@@ -1859,7 +1901,7 @@ func family(kind string) string {
 	switch kind {
 	case "prommatrix", "promvector", "promscalar", "promerror":
 		return "prom"
-	case "tags", "tagvalues", "trace", "search", "searchql":
+	case "tags", "tagvalues", "trace", "search", "searchql", "tagsv2", "valuesv2":
 		return "tempo"
 	case "streams", "matrix", "vector":
 		return "rows"
